@@ -207,6 +207,78 @@ def tableSize (p : Prog) : Nat :=
 def slideAcyclic (p : Prog) : Bool :=
   checkRank p (computeRank p (p.length + 2) (Array.replicate (tableSize p) 0))
 
+/-! ### stack-sensitive refinement
+
+  The position graph above lets `Abort` jump to EVERY catch label of the flow.  The expansion of `when`/`match … or …`
+  produces `…; catchPop; abort` behind the failure label, which closes a (spurious) cycle in that graph.  The refined
+  certificate tracks which catch stacks can actually occur at which position (`inv`, an inductive invariant that the
+  checker VERIFIES by running `stepAt` itself on every (position, stack) pair) and ranks positions along the moves that
+  are possible from those states only. -/
+
+/-- every state `slide` can move to in one iteration from position `u` with catch stack `s` (all three oracle answers),
+    plus the continuation edges: the heads created by a fork are advanced behind their labels, the merged head goes on
+    behind the merge -/
+def contMoves (p : Prog) (u : Nat) (s : List Nat) : List (Nat × List Nat) :=
+  ([Ans.tt, Ans.ff, Ans.err].filterMap fun a =>
+      match stepAt p a { pos := u, cstack := s } with
+      | .next h' => some (h'.pos, h'.cstack)
+      | .stop _ => none) ++
+  (match p[u]? with
+   | some (.fork ts) => ts.map fun t => (t + 1, s)
+   | some .merge => [(u + 1, s)]
+   | _ => [])
+
+/-- where the NEXT `slide` of a head parked on a waiting element starts: `_advance_head_front` moves an ACTIVE head one
+    element on; a pattern failure first puts it on the innermost catch label (`run_to_completion`, `heads_failing`) -/
+def resumeMoves (p : Prog) (u : Nat) (s : List Nat) : List (Nat × List Nat) :=
+  match p[u]? with
+  | some (.wait _) => (u + 1, s) :: (match s.getLast? with | some t => [(t + 1, s)] | none => [])
+  | _ => []
+
+structure Cert where
+  /-- per position: the catch stacks a head can have there -/
+  inv : List (List (List Nat))
+  rank : Array Nat
+  deriving Repr, Inhabited
+
+def Cert.allowed (c : Cert) (u : Nat) (s : List Nat) : Bool := (c.inv.getD u []).contains s
+
+/-- VERIFIED check of a certificate: the start state is allowed, `inv` is closed under slide moves and resume moves,
+    the rank strictly decreases along every slide move and never exceeds the number of elements -/
+def certOk (p : Prog) (c : Cert) : Bool :=
+  c.allowed 0 [] &&
+  ((List.range p.length).all fun u => (c.inv.getD u []).all fun s =>
+    ((contMoves p u s).all fun m => c.allowed m.1 m.2 && decide (c.rank.getD m.1 0 < c.rank.getD u 0)) &&
+    ((resumeMoves p u s).all fun m => c.allowed m.1 m.2)) &&
+  ((List.range (p.length + 1)).all fun u => decide (c.rank.getD u 0 ≤ p.length))
+
+/-- un-verified search: reachable (position, stack) states from the flow start -/
+def explore (p : Prog) : Nat → List (Nat × List Nat) → List (Nat × List Nat) → List (Nat × List Nat)
+  | 0, _, seen => seen
+  | _ + 1, [], seen => seen
+  | f + 1, (u, s) :: wl, seen =>
+    let nbrs := ((contMoves p u s ++ resumeMoves p u s).filter fun m => !seen.contains m && m.1 ≤ p.length).eraseDups
+    explore p f (wl ++ nbrs) (seen ++ nbrs)
+
+def relaxStates (p : Prog) (inv : List (List (List Nat))) (r : Array Nat) : Array Nat :=
+  (List.range p.length).reverse.foldl
+    (fun r u => r.setIfInBounds u
+      ((inv.getD u []).foldl (fun m s => (contMoves p u s).foldl (fun m v => max m (r.getD v.1 0 + 1)) m) 0)) r
+
+def computeRankStates (p : Prog) (inv : List (List (List Nat))) : Nat → Array Nat → Array Nat
+  | 0, r => r
+  | n + 1, r =>
+    let r' := relaxStates p inv r
+    if r' == r then r else computeRankStates p inv n r'
+
+def buildCert (p : Prog) : Cert :=
+  let seen := explore p (64 * (p.length + 2)) [(0, [])] [(0, [])]
+  let inv := (List.range (p.length + 1)).map fun u => (seen.filter fun m => m.1 == u).map (·.2)
+  { inv := inv, rank := computeRankStates p inv (p.length + 2) (Array.replicate (p.length + 2) 0) }
+
+/-- The refined verified checker. -/
+def slideRanked (p : Prog) : Bool := certOk p (buildCert p)
+
 /-- bound of T1: loop iterations of one `slide` call -/
 def slideBound (p : Prog) : Nat := p.length + 1
 
